@@ -8,6 +8,29 @@ static int h_peer = -1;
 static char **h_script;
 static int h_nscript, h_pos;
 
+/* a connected pair of real TCP sockets over loopback (FIN/POLLRDHUP behave as on the wire) */
+static int tcp_pair(int sv[2]) {
+    struct sockaddr_in a;
+    socklen_t al = sizeof(a);
+    int one = 1, l = socket(AF_INET, SOCK_STREAM, 0);
+    if (l < 0)
+        return -1;
+    memset(&a, 0, sizeof(a));
+    a.sin_family = AF_INET;
+    a.sin_addr.s_addr = htonl(INADDR_LOOPBACK);
+    if (bind(l, (struct sockaddr *)&a, sizeof(a)) || listen(l, 1) || getsockname(l, (struct sockaddr *)&a, &al))
+        return -1;
+    sv[1] = socket(AF_INET, SOCK_STREAM, 0);
+    if (sv[1] < 0 || connect(sv[1], (struct sockaddr *)&a, sizeof(a)))
+        return -1;
+    sv[0] = accept(l, NULL, NULL);
+    close(l);
+    if (sv[0] < 0)
+        return -1;
+    setsockopt(sv[1], IPPROTO_TCP, TCP_NODELAY, &one, sizeof(one));
+    return 0;
+}
+
 static int h_tcp_poll(struct pollfd *fds, nfds_t n, int timeout) {
     for (;;) {
         int r = poll(fds, n, 0);
@@ -17,15 +40,22 @@ static int h_tcp_poll(struct pollfd *fds, nfds_t n, int timeout) {
             return timeout < 0 ? -1 : 0;
         {
             char *ev = h_script[h_pos++];
-            if (ev[0] == 'w') {
+            if (ev[0] == 'w' || ev[0] == 'W') {
                 int l;
                 uint8_t *b = hx(ev + 2, &l);
                 if (l > 0 && write(h_peer, b, l) != l)
                     abort();
                 (free)(b);
+                if (ev[0] == 'W') { /* the peer ends the stream right behind these octets: data and FIN are both pending */
+                    close(h_peer);
+                    h_peer = -1;
+                }
+                if (l > 0 || ev[0] == 'W')
+                    poll(fds, n, 1000); /* loopback delivery is asynchronous: wait until it has arrived */
             } else if (ev[0] == 'e') {
                 close(h_peer);
                 h_peer = -1;
+                poll(fds, n, 1000);
             } else if (ev[0] == 't') {
                 if (timeout >= 0)
                     return 0; /* the peer stays silent for longer than the reader waits */
@@ -44,7 +74,7 @@ int h_tcp_op(const char *op, int argc, char **argv, FILE *out) {
     int sv[2], timeout, client, first = 1, rounds = 0;
     if (strcmp(op, "tcpstream"))
         return 0;
-    if (argc < 2 || socketpair(AF_UNIX, SOCK_STREAM, 0, sv))
+    if (argc < 2 || tcp_pair(sv))
         return 0;
     client = !strcmp(argv[0], "client");
     timeout = atoi(argv[1]);
